@@ -293,10 +293,11 @@ class Hist(object):
     def observe_ids(self, step):
         g, l = self.g, self.l
         sentinel = object()
-        for kspec in KEYS:
+        rot = len(l) % len(KEYS)
+        for kspec in KEYS[rot:] + KEYS[:rot]:
             key = mk_id(kspec)
             want = [r for r in l if 'id' in r and str(r['id']) == str(key)]
-            for how in ('getitem', 'get'):
+            for how in (('getitem', 'get') if (len(l) + KEYS.index(kspec)) % 2 else ('get', 'getitem')):
                 try:
                     if how == 'getitem':
                         got = g[key]
@@ -343,7 +344,7 @@ def alphabet(mode):
     ]
     if mode == 'list':
         ops += [['append', 10], ['insert', 0, 10], ['setitem', 0, 10], ['append', 'int'], ['insert', 0, 'none'], ['setitem', 0, 'pairs'], ['extend', [0, 'int']],
-                ['setitem', 7, 0], ['del', 7], ['delslice', [None, None, 2]], ['delslice', [None, None, -1]],
+                ['setitem', 7, 0], ['del', 7], ['del', -5], ['pop', -6], ['delslice', [None, None, 2]], ['delslice', [None, None, -1]],
                 ['delslice', [2, None, -1]], ['extend', [1, 6], 'iter'], ['iadd', [2], 'iter'],
                 ['slice', [None, None]], ['slice', [0, 1000]], ['remove', 11], ['remove', 12], ['append', 11], ['append', 12]]
     else:
